@@ -437,6 +437,20 @@ def consumers_see_all(ctx):
                     at = w.prov.operand_atoms(t["args"][0])
                     if atom_has_field(at, "files", "Resources") and not [c for c in atom_callres(at) if re.search(RESTRICTING, c)]:
                         ok = True
+        # a filter over the grouped paths may only drop groups that have no path at all
+        for bb, t in w.calls():
+            if re.search(r"Iterator>?::filter(::<.*>)?$", callee_decl(t)):
+                for fb in closure_bodies_passed(w, t):
+                    def is_empty_call(o):
+                        return o[0] == "call" and o[1].endswith("::is_empty")
+                    good = True
+                    for p_ in enumerate_paths(fb):
+                        ro = ret_origins(fb, p_)
+                        ne = any(o[0] == "not" and origin_matches(o[1], is_empty_call) for o in ro)
+                        if not ne and not is_const_ret(ro, "true"):
+                            good = False
+                    ctx.check(good, f"{short(w.name)}/only-empty-groups-dropped", [site(w, bb)],
+                              "the watcher constructor filters out groups of paths by something other than `no path at all`: declared inputs would not be watched", props=["C13", "C06"])
         ctx.check(ok, f"{short(w.name)}/all-file-resources", [w.loc()], "the watcher does not cover every file resource of the input (inherited ones would not be watched)", props=["C13", "C06"])
     # the per-path lister is called once for every declared path of every resource: each of its call sites sits under iterations (loops / iterator
     # adaptors given a closure) none of which is restricted
@@ -517,6 +531,26 @@ def same_predicate(ctx):
     outer = {r.outer_fn(b).name for b in wpreds.values()}
     ctx.check(bool(outer & lreach), "lister-prunes-workdir", [], "the lister does not exclude the work directory")
     ctx.check(bool(outer & creach), "callback-rejects-workdir", [], "the watcher callback does not reject paths inside the work directory")
+    # a work-dir predicate says "yes" only through the comparison with the constant: a name it cannot read (no file name, not UTF-8, not under the
+    # project) is *not* the work directory - otherwise such directories are pruned and such events swallowed
+    for on in sorted(outer):
+        for b in subtree(f, on):
+            for bb, t in b.calls():
+                d = callee_decl(t)
+                dflt = None
+                if re.search(r"Option::<.*>::unwrap_or(::<.*>)?$|Result::<.*>::unwrap_or(::<.*>)?$", d) and len(t["args"]) > 1:
+                    dflt = const_val(t["args"][1])
+                elif re.search(r"Option::<.*>::map_or(::<.*>)?$|Result::<.*>::map_or(::<.*>)?$", d) and len(t["args"]) > 1:
+                    dflt = const_val(t["args"][1])
+                elif re.search(r"Option::<.*>::is_none_or(::<.*>)?$", d):
+                    dflt = "true"
+                if dflt is not None:
+                    ctx.check(dflt == "false", f"{short(on)}/unreadable-name-is-not-workdir", [site(b, bb)],
+                              "a name the work-dir predicate cannot read counts as the work directory: such directories are pruned from every listing (or such events ignored)")
+            if b.ret == "bool":
+                for (bb, st) in [(blk["id"], st) for blk in b.normal_blocks() for st in blk["stmts"] if st["lhs"]["local"] == 0 and not st["lhs"]["proj"]]:
+                    if st["rv"]["k"] == "use" and const_val(st["rv"]["op"]) == "true":
+                        ctx.bad(f"{short(on)}/constant-true", [site(b, bb)], "the work-dir predicate returns a constant `true` on some path")
 
 
 @rule("C15.PREDICATE-ATOMS", ["C15"], """the extension predicate accepts a file when there is no filter or when its *file name* ends with one of the extensions""", "K2", floor=2)
